@@ -73,7 +73,10 @@ pub fn budget(prop: &str) -> (u64, u64) {
         "C13" | "C15" => (4000, 120_000),
         "C20" | "C14" | "C06" | "C07" => (6000, 200_000),
         "C18" => (10_000, 400_000),
-        _ => (6000, 250_000),
+        // farm profile (longer runs): C05 C08 C09 C10 C11
+        "C05" | "C08" | "C09" | "C10" | "C11" => (8000, 250_000),
+        // pool profile (short runs): twice as many
+        _ => (12_000, 250_000),
     }
 }
 
